@@ -729,6 +729,7 @@ Record otree := {
   o_time : list Z;
   o_y : list Z;
   o_x : list Z;
+  o_wl : list Z;                       (* labels of the `wavelength` coordinate ([] : none) *)
   o_vars : list ovar;
   o_inter : option (list inode);
   o_scene : payload;
@@ -744,6 +745,7 @@ Record case := {
   k_result : option otree;             (* None: the run raised *)
   k_result_nodebug : option otree;     (* the same run with debug off (given when k_debug) *)
   k_snaps : list (Z * snapshot);       (* the last-running recorder: absolute_time, containers *)
+  k_wl : list (list Z);                (* ... and the wavelength labels of the photon cube it held ([] : no cube) *)
   k_scene_seen : payload;              (* scene / data held by the detector at the end of the last step *)
   k_data_seen : payload;
   k_mrecs : list mrec }.
@@ -1017,9 +1019,21 @@ Definition inode_of_mrec (r : mrec) : inode :=
 Definition same_buckets (a b : otree) : bool :=
   String.eqb (o_bucket_path a) (o_bucket_path b)
   && zlist_eqb (o_time a) (o_time b) && zlist_eqb (o_y a) (o_y b) && zlist_eqb (o_x a) (o_x b)
+  && zlist_eqb (o_wl a) (o_wl b)
   && ovars_eqb (o_vars a) (o_vars b) && payload_eqb (o_scene a) (o_scene b)
   && payload_eqb (o_data a) (o_data b)
   && string_list_eqb (filter (fun s => negb (String.eqb s "intermediate")) (o_children a)) (o_children b).
+
+(* the wavelength labels of the result are those of the cubes the detector held (judged when it held a cube with
+   the same labels at the end of every step) *)
+Definition wavelengths_ok (k : case) (o : otree) : bool :=
+  match k_wl k with
+  | [] => true
+  | w :: ws => match w with
+               | [] => true
+               | _ => negb (forallb (zlist_eqb w) ws) || zlist_eqb (o_wl o) w
+               end
+  end.
 
 Definition spec_clauses (k : case) : list Z :=
   match k_result k with
@@ -1028,7 +1042,8 @@ Definition spec_clauses (k : case) : list Z :=
       let want_labels := map (Z.add (k_start k)) (k_times k) in
       let hier := k_hier k || negb (payload_is_empty (k_scene_seen k)) in
       (if zlist_eqb (map fst (k_snaps k)) want_labels
-          && dataset_matches false (range0 (k_rows k), range0 (k_cols k)) (k_snaps k) o then [] else [2])
+          && dataset_matches false (range0 (k_rows k), range0 (k_cols k)) (k_snaps k) o
+          && wavelengths_ok k o then [] else [2])
       ++ (if String.eqb (o_bucket_path o) (if hier then "/bucket" else "/")
              && string_list_eqb (o_children o)
                   (children (if hier then Hier else Flat) (k_debug k)) then [] else [3])
